@@ -1,4 +1,5 @@
 import Driver.H1
+import Driver.H2
 open Drv
 
 partial def loop (h : IO.FS.Stream) (out : IO.FS.Stream) (judge : String → String → String) : IO Unit := do
@@ -9,7 +10,10 @@ partial def loop (h : IO.FS.Stream) (out : IO.FS.Stream) (judge : String → Str
   loop h out judge
 
 def engines : List (String × (String → String → String)) :=
-  [("commitment", cmJudge), ("nextconfig", ncJudge), ("logcache", lcJudge), ("compaction", cpJudge)]
+  [("commitment", cmJudge), ("nextconfig", ncJudge), ("logcache", lcJudge), ("compaction", cpJudge),
+   ("handlers", hJudge), ("handlers-nomon", hJudgeWith []), ("universe", uJudgeWith umonAll)] ++
+  ["C02", "C03", "C04", "C05", "C06", "C10", "C11", "C14"].flatMap (fun p =>
+    [("handlers-" ++ p, hJudgeWith (amonFor p)), ("universe-" ++ p, uJudgeWith (umonFor p))])
 
 def main (args : List String) : IO UInt32 := do
   match args with
